@@ -161,6 +161,13 @@ def rule_table(ctx):
     ctx.ob("INTERRUPT cancels the pending result of the invocation with the same id", ok, "interrupt handling changed", om.fn.loc())
 
 
+def _arm_stmts(om, arm):
+    for x in ast.walk(om.fn.node):
+        if isinstance(x, ast.If) and isinstance(x.test, ast.Call) and norm.text(x.test.func) == "isinstance" and len(x.test.args) == 2 and norm.text(x.test.args[1]) == f"message.{arm}":
+            return x.body
+    return []
+
+
 def rule_identity(ctx):
     ctx.rule("C10.4-reply-identity-and-arguments")
     om = get_onmessage(ctx)
@@ -192,37 +199,67 @@ def rule_identity(ctx):
     ok = len(pdef) == 1 and ("truth", "msg.receive_progress", None, True) in mf.at(pdef[0])
     ctx.ob("progress callback exists only when the caller asked for progressive results", ok, "progress() defined without msg.receive_progress", om.fn.loc())
     # "progressive results are sent only before the terminal reply": the callback handed to the endpoint outlives the invocation (the endpoint
-    # may keep it); cell-wise over (invocation still pending or already answered/interrupted) x (payload): it sends iff still pending
+    # may keep it).  Histories, evaluated in one shared environment of the arm's closures:
+    #   (a) progress() while the endpoint is still running synchronously (the invocation is not even recorded as pending yet)  -> sent
+    #   (b) progress() while the invocation is pending                                                                          -> sent
+    #   (c) success(result) / error(failure), then progress()                                                                   -> NOT sent
     if pdef:
-        from ..core.tiny import Tiny, Sym
+        from ..core.tiny import Tiny, Sym, TinyRaise
         pf = pdef[0].ast
+        conts = {c.name: c for c in om.closures() if om.closure_arm(c)[0] == "Invocation" and c.name in ("success", "error") and c.parent is om.fn}
+        ctx.require(set(conts) == {"success", "error"}, "Invocation arm: success/error continuations not found")
+        # state shared by the closures: variables of the arm that progress() reads and that are initialised to an empty literal / constant
+        free = {x.id for x in ast.walk(pf) if isinstance(x, ast.Name) and isinstance(x.ctx, ast.Load)}
+        shared_init = {}
+        for st_ in ast.walk(ast.Module(body=_arm_stmts(om, "Invocation"), type_ignores=[])):
+            if isinstance(st_, ast.Assign) and len(st_.targets) == 1 and isinstance(st_.targets[0], ast.Name) and st_.targets[0].id in free:
+                v_ = st_.value
+                if (isinstance(v_, (ast.List, ast.Dict, ast.Set)) and not getattr(v_, "elts", getattr(v_, "keys", []))) or isinstance(v_, ast.Constant):
+                    shared_init[st_.targets[0].id] = v_
         probs = []
         try:
-            for pending in (True, False):
-                for pa, pk in (([], {}), ([Sym("partial")], {"k": Sym("v")})):
-                    sent = []
+            for history in ("sync", "pending", "after success", "after error"):
+                sent = []
 
-                    def default(f_, a_, k_=None):
-                        if f_ == "self._transport.send":
-                            sent.append(a_[0])
-                            return None
-                        if f_ == "message.Yield":
-                            return Sym("YIELD", request=a_[0] if a_ else None, **{k: v for k, v in (k_ or {}).items() if k in ("progress", "args", "kwargs")})
-                        return Sym(f"<{f_}>")
-                    va = pf.args.vararg.arg if pf.args.vararg else "args"
-                    vk = pf.args.kwarg.arg if pf.args.kwarg else "kwargs"
-                    env = {"self": Sym("session"), "msg.request": 100, "self._invocations": ({100: Sym("pending-invocation")} if pending else {}), "msg.enc_algo": None,
-                           "self._payload_codec": None, va: list(pa), vk: dict(pk), "tuple": "tuple", "list": "list", "dict": "dict", "proc": "com.proc"}
-                    t = Tiny(env, default_call=lambda f_, a_, k_=None: ("list" if f_ == "type" and isinstance(a_[0], list) else "dict" if f_ == "type" else default(f_, a_, k_)))
-                    r = t.run([x for x in pf.body if not (isinstance(x, ast.Expr) and isinstance(x.value, ast.Constant))])
-                    cell = f"invocation {'still pending' if pending else 'already answered'}, progress payload {pa}, {pk}"
-                    if r[0] == "raise" and pending:
-                        probs.append(f"{cell}: raises {r[1]}")
-                    elif pending and not (len(sent) == 1 and isinstance(sent[0], Sym) and sent[0].attrs.get("request") == 100 and sent[0].attrs.get("progress") is True):
-                        probs.append(f"{cell}: sends {sent}, expected one YIELD(progress=True) for the request")
-                    elif not pending and sent:
-                        probs.append(f"{cell}: a progressive YIELD is sent after the terminal reply of the invocation")
-            ctx.ob("progress(): a progressive result is sent only while the invocation is still pending [4 cells]", not probs, "; ".join(probs[:2]), om.fn.loc(pf))
+                def default(f_, a_, k_=None):
+                    if f_ == "self._transport.send":
+                        sent.append(a_[0])
+                        return None
+                    if f_ == "message.Yield":
+                        return Sym("YIELD", request=a_[0] if a_ else None, progress=(k_ or {}).get("progress"))
+                    if f_ in ("message.Error", "self._message_from_exception"):
+                        return Sym("ERROR")
+                    if f_ == "isinstance":
+                        return False
+                    if f_ == "type":
+                        return "list" if isinstance(a_[0], list) else "dict"
+                    return Sym(f"<{f_}>")
+                va = pf.args.vararg.arg if pf.args.vararg else "args"
+                vk = pf.args.kwarg.arg if pf.args.kwarg else "kwargs"
+                env = {"self": Sym("session", traceback_app=False), "msg.request": 100, "msg.enc_algo": None, "self._payload_codec": None, "self._transport": Sym("transport"),
+                       "self._invocations": ({} if history == "sync" else {100: Sym("pending-invocation")}), "tuple": "tuple", "list": "list", "dict": "dict", "proc": "com.proc",
+                       "registration.procedure": "com.proc", "self.traceback_app": False, "message.Invocation.MESSAGE_TYPE": 68}
+                t = Tiny(env, default_call=default, opaque_globals=True)
+                for nm_, init_ in shared_init.items():
+                    t.env[nm_] = t.ev(init_)
+                if history.startswith("after"):
+                    c_ = conts[history.split()[1]]
+                    t.env[c_.params()[0]] = Sym("result-or-failure", value=Sym("exception"))
+                    r0 = t.run([x for x in c_.node.body if not (isinstance(x, ast.Expr) and isinstance(x.value, ast.Constant))])
+                    if r0[0] == "raise" or len(sent) != 1:
+                        probs.append(f"{history}: the continuation itself gives {r0[0]} {str(r0[1])[:40]} and sends {len(sent)} message(s)")
+                        continue
+                    del sent[:]
+                t.env[va], t.env[vk] = [Sym("partial")], {}
+                r = t.run([x for x in pf.body if not (isinstance(x, ast.Expr) and isinstance(x.value, ast.Constant))])
+                ok_sent = len(sent) == 1 and isinstance(sent[0], Sym) and sent[0].name == "YIELD" and sent[0].attrs.get("request") == 100 and sent[0].attrs.get("progress") is True
+                if history in ("sync", "pending") and (r[0] == "raise" or not ok_sent):
+                    probs.append(f"progress() {'while the endpoint is still running synchronously' if history == 'sync' else 'while the invocation is pending'}: "
+                                 f"{r[0]} {str(r[1])[:40]}, sent {sent}; expected one YIELD(progress=True) for the request")
+                elif history.startswith("after") and sent:
+                    probs.append(f"progress() {history}(): a progressive YIELD is sent after the terminal reply of the invocation")
+            ctx.ob("progress(): a progressive result is sent while the endpoint runs or the invocation is pending, never after the terminal reply [4 histories]",
+                   not probs, "; ".join(probs[:2]), om.fn.loc(pf))
         except AnalysisError as e:
             raise AnalysisError(f"[C10.4-reply-identity-and-arguments] progress() outside the modelled subset: {e}")
     pn = [n for n in nodes if n.kind == "stmt" and isinstance(n.ast, ast.Assign) and norm.text(n.ast.targets[0]) == "progress"]
